@@ -41,6 +41,9 @@ GEOMS = {                     # df [Hz], dt [s], fch1 [Hz]
     'bl': (2.7939677238464355, 18.253611008, 6e9),
     'half': (2.0, 0.5, 1e9),
 }
+# geometry of the typed-rate sub-box only: channels 64 Hz wide, so that whole-number rates of 64, 128 Hz/s are 1, 2 channels per row
+GEOM_WIDE = ('wide', (64.0, 1.0, 1e6))
+GEOMS_ALL = dict(GEOMS, **{GEOM_WIDE[0]: GEOM_WIDE[1]})
 SIZES_Q = [(1, 5), (6, 2), (2, 5), (5, 1), (4, 9), (3, 16)]            # (tchans, fchans)
 SIZES_T = [(1, 1), (1, 5), (2, 2), (6, 2), (2, 5), (5, 1), (4, 9), (3, 16), (9, 4), (16, 33), (7, 64)]
 KINDS_Q = ['syn', 'syn_wf', 'fil', 'syn0', 'h5']
@@ -77,7 +80,7 @@ def _owned_clock():
 # ----------------------------------------------------------------------------- parents
 def _synthetic(c, n):
     import setigen as stg
-    df, dt, fch1 = GEOMS[c['geom']]
+    df, dt, fch1 = GEOMS_ALL[c['geom']]
     data = R.ramp(c['m'], n, c['seed'])
     # 'syn0': a parent at the Unix epoch with an empty source name (falsy values must be carried over like any other)
     t0, nm = (0.0, '') if c.get('kind') == 'syn0' else (T0, NAME)
@@ -246,7 +249,7 @@ def _do_slice(c, P, V, res):
 def _dedrift_call(P, d, route):
     import setigen as stg
     with contextlib.redirect_stdout(io.StringIO()):
-        if route in ('direct', 'direct_kw'):
+        if route in ('direct', 'direct_kw', 'direct_np'):
             # an explicit rate (zero included) takes precedence over whatever the frame's metadata says: the metadata
             # carries a DIFFERENT non-zero rate as a decoy while the explicit routes are exercised
             decoy = 0.77 * P.df / P.dt if d <= 0 else -0.77 * P.df / P.dt
@@ -254,6 +257,9 @@ def _dedrift_call(P, d, route):
             try:
                 if route == 'direct':
                     return stg.dedrift(P, d)
+                if route == 'direct_np':
+                    # the same whole-number rate as a numpy fixed-width integer (products with the row index must not wrap)
+                    return stg.dedrift(P, np.uint8(d) if 0 <= d < 256 else np.int16(d))
                 return stg.dedrift(P, drift_rate=d)
             finally:
                 # the parent is an input: the rate recorded on it is what it was (a later de-drift from its metadata uses it)
@@ -377,7 +383,7 @@ def _do_dedrift(c, P, V, res):
     must_raise = R.all_roundings_at_least(y_last, n)     # even the common band is empty
     must_return = R.all_roundings_below(z_full, n)       # below the frame's limit under either convention
     first = None
-    for route in ('direct', 'metadata', 'direct_kw'):
+    for route in ('direct', 'metadata', 'direct_kw') + (('direct_np',) if float(d).is_integer() and abs(d) < 2 ** 15 else ()):
         p0, fs0 = np.array(P.data, copy=True), np.array(P.fs, copy=True)
         res['n'] += 1
         try:
@@ -681,6 +687,10 @@ def run(ctx):
         for q in _q_list(m, n, ctx.tier):
             dd.append(dict(p, op='dedrift', q=q))
         dd.append(dict(p, op='dedrift_nometa'))
+        if p['geom'] == 'unit' and p['kind'] == 'syn':
+            # (sub-box) whole-number rates on wide channels, handed over as numpy fixed-width integers
+            for q in (1.0, 2.0, -1.0, -2.0, 3.0):
+                dd.append(dict(p, geom='wide', op='dedrift', q=q))
         for axis in AXES:
             for mode in MODES:
                 for norm in (False, True):
